@@ -155,6 +155,16 @@ func c14Values() (toks []*esdt.ESDigitalToken, metas []*esdt.MetaData, roles []*
 			}
 		}
 	}
+	// varint boundaries of lengths and numbers: 127/128/129 and 16383/16384
+	for _, n := range []int{127, 128, 129, 16383, 16384} {
+		metas = append(metas, &esdt.MetaData{Nonce: uint64(n), Name: make([]byte, n), Royalties: uint32(n), URIs: [][]byte{make([]byte, n), {}}, Attributes: bytes.Repeat([]byte{1}, n)})
+		toks = append(toks, &esdt.ESDigitalToken{Type: uint32(n), Value: new(big.Int).SetBytes(bytes.Repeat([]byte{0xff}, n%300)), Properties: make([]byte, n), TokenMetaData: &esdt.MetaData{Nonce: uint64(n), Hash: make([]byte, n)}, Reserved: make([]byte, n)})
+		rl := &esdt.ESDTRoles{}
+		for i := 0; i < 3; i++ {
+			rl.Roles = append(rl.Roles, make([]byte, n))
+		}
+		roles = append(roles, rl)
+	}
 	metaShapes := []*esdt.MetaData{nil, {}, {Nonce: 1}, {Nonce: 300, Name: []byte("n"), Creator: bytes.Repeat([]byte{7}, 32), Royalties: 10000, Hash: []byte("h"), URIs: [][]byte{[]byte("u"), {}}, Attributes: []byte("a")},
 		{URIs: [][]byte{{}}}, {Attributes: make([]byte, 200)}, {Royalties: 1<<32 - 1}, {Nonce: 1<<64 - 1, Hash: []byte{0}}}
 	for _, typ := range []uint32{0, 1, 300, 1<<32 - 1} {
